@@ -236,6 +236,53 @@ def register(reg):
         return NotImplemented
     reg.regex_hook = regex_hook
 
+    # The model above is tied to the REAL pattern: the pattern text is read from the class body of LatexTokenReader on every run,
+    # compiled, and compared with the documented reading of it -- optional whitespace, '{', a non-empty name over the allowed
+    # characters, '}' -- on every string up to length 5 over {space, newline, '{', '}', 'a', '*', '%'} (a bounded validator of an
+    # assumed library contract, like the ones of pyvc.selftest; a pattern rewritten into an equivalent one passes)
+    def lemma_envname_pattern(it):
+        import ast as _ast, itertools, os, re as _re
+        path = os.path.join(it.program.root, 'pylatexenc/latexnodes/_tokenreader.py')
+        pat = None
+        for n in _ast.walk(_ast.parse(open(path, encoding='utf-8').read())):
+            if isinstance(n, _ast.Assign) and any(isinstance(t, _ast.Name) and t.id == 'rx_environment_name' for t in n.targets) \
+                    and isinstance(n.value, _ast.Call) and n.value.args and isinstance(n.value.args[0], _ast.Constant):
+                pat = n.value.args[0].value
+        it.ctx.prove('environment-name-pattern: LatexTokenReader.rx_environment_name is a compiled literal pattern', isinstance(pat, str), 'table')
+        if not isinstance(pat, str):
+            return
+        rx = _re.compile(pat)
+        allowed = set('abcdefghijklmnopqrstuvwxyzABCDEFGHIJKLMNOPQRSTUVWXYZ0123456789*._ :/!^()[]-')
+
+        def reference(s):
+            i = 0
+            while i < len(s) and s[i].isspace():
+                i += 1
+            if i >= len(s) or s[i] != '{':
+                return None
+            j = i + 1
+            while j < len(s) and s[j] in allowed:
+                j += 1
+            if j == i + 1 or j >= len(s) or s[j] != '}':
+                return None
+            return (j + 1, s[i + 1:j])
+        bad = []
+        for n in range(0, 6):
+            for t in itertools.product(' \n{}a*%', repeat=n):
+                s_ = ''.join(t)
+                m = rx.match(s_)
+                got = None if m is None else (m.end(), m.groupdict().get('environmentname'))
+                if got != reference(s_):
+                    bad.append((s_, got, reference(s_)))
+                    break
+            if bad:
+                break
+        it.ctx.prove('environment-name-pattern: the real pattern reads optional whitespace, an opening brace, a non-empty name of '
+                     'allowed characters and a closing brace (all strings up to length 5 over 7 characters)', not bad, 'table',
+                     src='first difference (string, real pattern, documented reading): %r' % (bad[:1],))
+    units['environment-name-pattern'] = LemmaUnit('environment-name-pattern', lemma_envname_pattern,
+                                                  functions=[TR + '.impl_read_environment'])
+
     # ---------------- impl_peek_space_chars --------------------------------------------------------
     def setup_space(it):
         s = sym_str(it, 's')
